@@ -227,15 +227,21 @@ func MergeErrors(err, other error) error {
 	}
 	e := asError(err)
 	o := asError(other)
-	if e.Name == "error" {
-		e.Name = o.Name
-	}
 
 	// Combine error lineage. We only ever put original errors into the history slice, so we
 	// don't need to worry about gaining intermediate merges.
 	//
-	// Do this before we modify ourselves, as History() may include us!
-	e.history = append(e.History(), o.History()...)
+	// Do this before we modify ourselves: when e is itself an original error
+	// record a copy of it since e is updated in place below.
+	hist := e.history
+	if len(hist) == 0 {
+		orig := *e
+		hist = []*ServiceError{&orig}
+	}
+	e.history = append(hist, o.History()...)
+	if e.Name == "error" {
+		e.Name = o.Name
+	}
 	e.err = errors.Join(e.err, o.err)
 
 	e.Message = e.Message + "; " + o.Message
